@@ -19,6 +19,7 @@ def run(ctx):
     cfgs = runs.ins_lattice(ctx.seed, ctx.quick)
     if not ctx.quick:
         cfgs += [dict(c, seed=ctx.seed + 1) for c in runs.ins_lattice(ctx.seed + 1, True)]
+    cfgs += runs.option_sweep("ins", ctx.seed)
     keys = set()
     for cfg, res in ctx.pmap(worker, cfgs):
         ctx.count("evaluations")
@@ -32,10 +33,12 @@ def run(ctx):
             ctx.count("runs_with_resume")
             ctx.count("resumes", res["resumes"])
         keys.add((res["key"], str(cfg.get("kill_at"))))
-        for clause, detail in res["errs"][:2]:
+        if cfg.get("sweep"):
+            ctx.count("runs_from_the_option_sweep")
+        for clause, detail in runs.sweep_errs(cfg, res["errs"])[:2]:
             ctx.violation(f"{clause}@{res['key']}", f"{clause}: {detail} (config {cfg})", {"cfg": cfg})
     ctx.set("distinct_nontrivial", len(keys))
-    ctx.set("rule", "INS configuration lattice (quick: default + every single deviation of reparameterisation, strict_threshold, replace_all, draw_constant, draw_iid_live, ftype, save_log_q, threshold_method + 4 more; thorough: full product = 384 configurations, two seeds for the quick lattice) x resume histories (every subset of the 4 checkpoints of the default run; kill-at-every-checkpoint for the deviations). Distinct/non-trivial: distinct (configuration, resume history) pairs; every iteration and every stored sample of each is checked")
+    ctx.set("rule", "INS configuration lattice (quick: default + every single deviation of reparameterisation, strict_threshold, replace_all, draw_constant, draw_iid_live, ftype, save_log_q, threshold_method + 4 more; thorough: full product = 384 configurations, two seeds for the quick lattice) x resume histories (every subset of the 4 checkpoints of the default run; kill-at-every-checkpoint for the deviations); plus every valid single INS option value of the C20 option alphabet. Distinct/non-trivial: distinct (configuration, resume history) pairs; every iteration and every stored sample of each is checked")
     ctx.set("exhaustive", True)
     ctx.sample({"config": cfgs[1], "checked": "every sample of training and iid sets after every iteration, after finalise, after each resume"})
     ctx.assume(
